@@ -136,6 +136,16 @@ class WorldJob(object):
             return rp[len(self.root) + 1:]
         return None
 
+    def reachable(self, path):
+        p = path.replace('{ROOT}', self.root)
+        if not os.path.isabs(p):
+            p = os.path.join(self.abs_cwd(), p)
+        try:
+            os.stat(p)
+            return True
+        except OSError:
+            return False
+
     def force(self, env):
         return env.get('PYMINIFY_FORCE_BEST_EFFORT') == '1'
 
@@ -356,6 +366,8 @@ class WorldJob(object):
             if rp_in in ignore:
                 continue        # the command's own leftover from the crashed run: outside the model
             content = c.stdin if c.stdin is not None else (state.get(rp_in) if rp_in is not None else None)
+            if c.stdin is None and content is not None and not self.reachable(shown):
+                content = None      # the file exists but not through this path (too many levels of symbolic links)
             sink = rp_in if mode == 'in-place' else (out_rel if mode == 'output' else None)
             last = k == len(visits) - 1
             res = self.model.visit(content, self.kw, force)
@@ -879,7 +891,7 @@ class WorldJob(object):
     def subprocess_check(self, env0, pre, rec, post, t0):
         """The same fault-free command as a real `python -m python_minifier` process with real pipes."""
         import subprocess
-        if t0.get('fail_at') is not None and len(self.V_pre or []) > 1:
+        if (t0.get('fail_at') is not None or rec['exit'] != 0) and len(self.V_pre or []) > 1:
             return      # a failing file among several candidates: the outcome depends on the kernel's listing order
         self.fresh_tree()
         env = dict(os.environ)
